@@ -384,6 +384,9 @@ func genC13Action(t *rapid.T, i int, forceSetup bool) c13Action {
 	nl := rapid.OneOf(rapid.IntRange(0, 64), rapid.SampledFrom([]int{0, 1, 127, 128, 255, 256, 1000, 2047, 5000}), rapid.IntRange(0, 5000)).Draw(t, l+"naslen")
 	a.Nas = rapid.SliceOfN(rapid.Byte(), nl, nl).Draw(t, l+"nas")
 	a.IP = rapid.SliceOfN(rapid.Byte(), 4, 4).Draw(t, l+"ip")
+	if rapid.IntRange(0, 2).Draw(t, l+"ip_special") == 0 {
+		a.IP = gen.SpecialIPv4(t, l+"ip_s")
+	}
 	a.PLMN = rapid.SliceOfN(rapid.Byte(), 3, 3).Draw(t, l+"plmn")
 	a.GnbBits = uint64(rapid.IntRange(22, 32).Draw(t, l+"gnbbits"))
 	if bad == 3 {
